@@ -85,6 +85,14 @@ acceptance of the message, and attempt `i`). -/
 def metaFor (restarts : Nat → Nat) (i : Nat) (m : MetaN) : MetaN :=
   if i = 0 ∧ restarts 0 = 0 then m else reload (restarts i + 1) m
 
+/-- A read of the spool entry that fails once, transiently, before attempt `i` (`faults i` times):
+an instance comes up and cannot load the entry (`readDiskQueue`: "failed to read meta-data,
+skipping") or cannot open it for the attempt (`dispatch`: "read message" is logged, the goroutine
+returns) — in both cases the entry is left exactly as it is; when the condition has cleared the next
+instance loads it.  For the message that is two more restarts with no attempt in between. -/
+def withReadFaults (restarts faults : Nat → Nat) : Nat → Nat :=
+  fun i => restarts i + 2 * faults i
+
 /-- The life of one message under a schedule of restarts.  Second component: the message was
 left behind as `.meta_broken`. -/
 def runR (maxTries : Nat) (k : Kind) (dsn : Bool) (env : Env) (plans : Nat → Plan)
